@@ -1,3 +1,3 @@
 SPECIFICATION Spec
-INVARIANT InvPkgIncl
+INVARIANTS InvPkgIncl InvApaAgrees
 CHECK_DEADLOCK FALSE
